@@ -60,7 +60,10 @@ def workTerms (st : State) (t : Task) : List Term :=
 /-- work amount of one task (solver.py:246-261) -/
 def workAmount (st : State) (t : Task) : List Fml :=
   if t.work > 0 then
-    if (workTerms st t).isEmpty then [] else [.ge (.sum (workTerms st t)) (numT t.work)]
+    if (workTerms st t).isEmpty then []
+    else
+      let done := Fml.ge (.sum (workTerms st t)) (numT t.work)
+      [if t.optional then .imp (.bvar (.sched t.name)) done else done]
   else []
 
 /-! ### buffers (solver.py:263-385) -/
